@@ -20,7 +20,7 @@ Extraction "bitsx.ml"
   BitmapRank2.get_bits BitmapRank2.true_pos
   Bits.encode_trie Bits.trie_wf Bits.init_vars Bits.node_count Bits.get_view Bits.get_node
   Bits.ith_leaf_bytes Bits.bitstr_of_nibs Bits.bitstr_len Bits.path_to_index Bits.index_to_path
-  Bits.set_bits_below Msg.mgetid Msg.mget Msg.msearchid
+  Bits.set_bits_below Msg.mgetid Msg.mget Msg.msearchid Msg.msearch Msg.mrangeget
   EndToEnd.to_wire Wire.marshal_gen
   ScanMsg.miter_all ScanMsg.mscan_from ScanMsg.mscan_from_to Scan.stop_at Scan.never_stop
   StatMsg.minit_levels StatMsg.mstat StatMsg.mrender.
